@@ -56,6 +56,21 @@ def _copy(t):
     return copy.deepcopy(t)
 
 
+def expand1(t: ast.AST, events) -> ast.AST:
+    """Expand call/property placeholders one level only (their arguments stay placeholders)."""
+
+    class X(ast.NodeTransformer):
+        def visit_Name(self, n):
+            nm = n.id
+            if len(nm) > 2 and nm[0] == "$" and nm[1] in "cp" and nm[2:].isdigit():
+                i = int(nm[2:])
+                if i < len(events) and events[i].kind in ("call", "prop"):
+                    return _copy(events[i].term)
+            return n
+
+    return X().visit(_copy(t))
+
+
 def placeholder_closure(t: ast.AST, events) -> set:
     """All placeholders the term depends on, transitively through call arguments / receivers."""
     seen = set()
